@@ -106,6 +106,8 @@ class ProgProp(Prop):
         """is the case inside the domain the mock programs cover (named namespace: D-8, void release: K-5)?"""
         if not c['_info']['comp_ns']:
             return False
+        if any(ct not in G.CTYPES for _fq, ct in c['_info']['externs']):
+            return False
         mc = c['cfg']['multiclient']
         if mc:
             p, itf = X.port_events(c['_info'], mc['port'])
@@ -291,7 +293,17 @@ def text_routing_stream(rng, n, mc_fraction, clause_filter=None):
     """n generated cases through the real Builder and the driver op `build.route`: full-text correspondence with
     the model, and the routing table the Dezyne model + configuration demand evaluated (in Lean,
     DznModel.SpecRouting) on the assignments read back from the IMPLEMENTATION's source text (DznModel.IrParse)"""
-    base = [G.gen_case(rng, want_mc=rng.random() < mc_fraction) for _ in range(max(1, n // 2))]
+    base = []
+    saved = G.CTYPES
+    try:
+        for k in range(max(1, n // 2)):
+            # text level only, so every spelling of an extern's C++ type is in reach: references, pointers,
+            # templates - an argument "copied" into a deferred call must be copied whatever its type says
+            G.CTYPES = saved if k % 3 else ['int', 'const Payload&', 'Frame*', 'std::shared_ptr<X>', 'My::T<int>',
+                                            'char const *', 'std::string', 'const std::string &']
+            base.append(G.gen_case(rng, want_mc=rng.random() < mc_fraction))
+    finally:
+        G.CTYPES = saved
     # every model is parsed once and built twice by ONE Builder object: as generated, then with the other
     # runtime semantics on every side - a configuration-dependent result must not survive from build to build
     cases, impls = [], []
